@@ -14,7 +14,8 @@
              lines [[x0,y0,x1,y1,c],..],             the LINE statements drawn as reference
              marks [[x,y],..] (optional),            pixels holding the marker attribute after PSET STEP(0,0),marker
              diff  [[x,y],..],                       pixels where DRAW picture and LINE picture differ
-             clip  [x0,y0,x1,y1]}                    the screen cell observed                               *)
+             clip  [x0,y0,x1,y1],                    the screen cell observed
+             noref (optional)}                       no LINE reference was drawn (attribute beyond LINE's 0..255)  *)
 EXTENDS Draw, TraceBase
 VARIABLES st, l, viol
 tvars == <<st, l, viol>>
@@ -27,6 +28,7 @@ Judge(e, r) ==
     IF e.kind = "internal" THEN "internal_error"
     ELSE IF ~e.ok THEN "draw_statement_failed"
     ELSE IF <<e.p0, e.p1>> # r.st.pos THEN "pen_position_POINT_0_1"
+    ELSE IF Has(e, "noref") THEN "ok"        \* attribute > 255: LINE cannot render the reference; pen position only
     ELSE IF e.lines # r.segs THEN "reference_lines_are_not_the_model_segments"
     ELSE IF Has(e, "marks") /\ SeqSet(e.marks) # (IF InClip(r.st.pos, e.clip) THEN {r.st.pos} ELSE {}) THEN "pen_position_STEP_0_0"
     ELSE IF SeqSet(e.diff) \ (IF Has(e, "marks") THEN {r.st.pos} ELSE {}) # {} THEN "segments_differ_from_LINE"
